@@ -96,6 +96,21 @@ def image_validity(i):
 
 def im_validity(model):
     worst = (VALID, "")
+    # a manifest in which two filed images share identity with different checksums can only arise by mutating an image
+    # AFTER it was filed (add refuses it) or through the pre-1.1 exemption: outside C02/C06's quantifiers
+    seen = {}
+    for variant in model["cells"]:
+        for arch in model["cells"][variant]:
+            for iid in model["cells"][variant][arch]:
+                img = model["imgs"][iid]
+                try:
+                    k = cjson(list(identity(img)))
+                except Exception:
+                    continue
+                c = cjson(img.get("checksums"))
+                if k in seen and seen[k] != c:
+                    worst = (UNSPEC, "identity-collision-in-manifest")
+                seen.setdefault(k, c)
     vv, why = compose_validity(model["compose"])
     if vv == INVALID:
         return vv, why
